@@ -144,7 +144,9 @@ Fixpoint apply_calls (p : profile) (b : builder) (calls : list arg) : res builde
 
 Definition run_build (p : profile) (calls : list arg) : list string :=
   let r := (b <- apply_calls p builder_new calls ;; builder_build p b PAD) in
-  line "build" (sRes (fun img => "total=" ++ sN (le (slice img 0 4)) ++ " sov=" ++ sN (len img)) r)
+  (* alloc: the layout build() asks the allocator for - the whole image, ALIGNMENT *)
+  line "build" (sRes (fun img => "total=" ++ sN (le (slice img 0 4)) ++ " sov=" ++ sN (len img)
+                                 ++ " alloc=" ++ sN (len img) ++ "," ++ sN 8) r)
   :: match r with Val img => run_mbi p img | _ => [] end.
 
 Fixpoint happly_calls (p : profile) (b : hbuilder) (calls : list arg) : res hbuilder :=
@@ -159,7 +161,8 @@ Fixpoint happly_calls (p : profile) (b : hbuilder) (calls : list arg) : res hbui
 Definition run_hbuild (p : profile) (arch : N) (calls : list arg) : list string :=
   let r := (b <- happly_calls p (hbuilder_new arch) calls ;; hbuilder_build p b PAD) in
   line "hbuild" (sRes (fun img => "length=" ++ sN (le (slice img 8 4)) ++ " sov=" ++ sN (len img)
-                                  ++ " last8=" ++ sBytes (slice img (len img - 8) 8)) r)
+                                  ++ " last8=" ++ sBytes (slice img (len img - 8) 8)
+                                  ++ " alloc=" ++ sN (len img) ++ "," ++ sN 8) r)
   :: match r with Val img => run_hdr p img | _ => [] end.
 
 (* newboxed <hkind 0|1|2> <header bytes> [ slices ]: new_boxed::<DynSizedStructure<H>> and the
